@@ -19,7 +19,7 @@ BUILDS = ["rel"]
 BUDGET_S = {"quick": 170, "thorough": 3000}
 RULE = ("Repositories of 1-4 files (7 hosts) whose uniquely named blocks carry random sort / unique / pattern / count / Lua rules "
         "(violating or not, so untouched blocks have pre-existing violations). Each block receives one edit class: INSIDE "
-        "(content line inserted, deleted or replaced), TAG-ONLY (one digit inside an attribute value of the start tag; also "
+        "(content line inserted, deleted or replaced), TAG+INSIDE (an attribute and a content line), TAG-ONLY (one digit inside an attribute value of the start tag; also "
         "on line k of a multi-line tag), END-ONLY (text added inside the end-tag comment), OUTSIDE (filler code not adjoining "
         "any tag) or none. Shared-line layouts (`/* <block ..> */ code /* </block> */`, optionally after multi-byte prose) "
         "get single-character edits inside the tag, in the code and in the end comment. Real git produces the diff "
@@ -33,7 +33,7 @@ ASSUMPTIONS = [
     "the C01 known finding (pure deletions located at old-file line numbers) is labelled through the same defect model",
 ]
 
-INSIDE, TAGONLY, ENDONLY, OUTSIDE, NONE = "inside", "tag-only", "end-only", "outside", "none"
+INSIDE, TAGONLY, ENDONLY, OUTSIDE, NONE, BOTH = "inside", "tag-only", "end-only", "outside", "none", "tag+inside"
 # no SQL host here: editing a `-- <block ..>` line puts `--- ` into a hunk body, which is C01's recorded acceptance finding
 HOSTS = [("py", "#"), ("rb", "#"), ("sh", "#"), ("rs", "//"), ("go", "//"), ("js", "//"), ("toml", "#")]
 FILLER = {"py": "pad = %d", "rb": "pad = %d", "sh": "pad=%d", "rs": "const PAD%d: u8 = 0;", "go": "var pad%d = 0", "js": "let pad%d = 0;",
@@ -143,13 +143,17 @@ def one_case(ctx, r, desc):
                 x = r.random()
                 if x < 0.25:
                     b.cls = INSIDE
+                    if r.random() < 0.3 and not b.layout.startswith("shared"):
+                        b.cls = BOTH          # an attribute of the start tag *and* a content line are edited
                 elif x < 0.42:
                     b.cls = TAGONLY
                 elif x < 0.55:
                     b.cls = ENDONLY
                 else:
                     b.cls = NONE
-                if b.cls == INSIDE:
+                if b.cls == BOTH:
+                    bump_rev(b)
+                if b.cls in (INSIDE, BOTH):
                     if b.layout.startswith("shared"):
                         b.lines = [b.lines[0].replace("= 0", "= 1") if "= 0" in b.lines[0] else b.lines[0] + " "]
                         b.how = "shared-char"
@@ -223,9 +227,13 @@ def judge(r, files, stateA, stateB, classes, diff, ctxw, globs, lst, res, scan, 
             tagsB = set(range(ib["s1"], ib["s2"] + 1))
             endA = set(range(ia["e1"], ia["e2"] + 1))
             endB = set(range(ib["e1"], ib["e2"] + 1))
-            d_inside = d_start = d_end = d_adj = False
+            d_inside = d_start = d_end = d_adj = d_mixed = False
             for g in groups:
                 R, A = set(g.removed), set(g.added)
+                if ((A & inB) or (R & inA)) and ((A & tagsB) or (R & tagsA)):
+                    # one change group covers a tag line *and* content lines: which removed line was the tag cannot be told
+                    # from the diff, so the outcome is not decided by the statement
+                    d_mixed = True
                 if (A & inB) or (R & inA):
                     d_inside = True
                 if (A & tagsB) or (R & tagsA):
@@ -240,6 +248,8 @@ def judge(r, files, stateA, stateB, classes, diff, ctxw, globs, lst, res, scan, 
                 v = cls if ok and not d_adj else "dc"
             elif cls == INSIDE:
                 v = INSIDE if (d_inside and not d_start and not d_end) else "dc"
+            elif cls == BOTH:
+                v = BOTH if (d_inside and d_start and not d_end and not d_mixed) else "dc"
             elif cls == TAGONLY:
                 v = TAGONLY if (d_start and not d_inside and not d_end and not d_adj) else "dc"
             elif cls == ENDONLY:
@@ -248,7 +258,7 @@ def judge(r, files, stateA, stateB, classes, diff, ctxw, globs, lst, res, scan, 
                 v = NONE if not (d_inside or d_start or d_end or d_adj) else "dc"
             verdict[(path, b.name)] = v
     all_blocks = [(path, b) for path, ext, op, blocks in files for b in blocks]
-    selected = {k for k, v in verdict.items() if v in (INSIDE, TAGONLY)}
+    selected = {k for k, v in verdict.items() if v in (INSIDE, TAGONLY, BOTH)}
     notsel = {k for k, v in verdict.items() if v in (ENDONLY, NONE)}
     dcs = {k for k, v in verdict.items() if v == "dc"}
     in_glob = {(p, b.name) for p, b in all_blocks if globs and glob_match(globs, p)}
@@ -283,7 +293,7 @@ def judge(r, files, stateA, stateB, classes, diff, ctxw, globs, lst, res, scan, 
         want_listed = (k in selected) or (k in in_glob)
         if want_listed != (k in listed):
             problems.append((k, v, "listed" if k in listed else "not-listed"))
-        elif k in listed and listed[k] != (v == INSIDE):
+        elif k in listed and listed[k] != (v in (INSIDE, BOTH)):
             problems.append((k, v, "flag-%s" % listed[k]))
     extra = [k for k in listed if k not in verdict]
     if extra:
@@ -300,7 +310,7 @@ def judge(r, files, stateA, stateB, classes, diff, ctxw, globs, lst, res, scan, 
             bi = difflab.BlockInfo(s1=ib["s1"], s2=ib["s2"], e1=ib["e1"], e2=ib["e2"])
             dm = c01.defect_model(bi, groups, 0)
             obs_mod = listed.get(k, False)
-            if all(pv in (INSIDE, NONE, ENDONLY) for _k, pv, _w in problems) and (dm is None or dm == obs_mod):
+            if all(pv in (INSIDE, BOTH, NONE, ENDONLY) for _k, pv, _w in problems) and (dm is None or dm == obs_mod):
                 return bad("C02/known/pure-deletion-located-at-old-line-number",
                            "block %s:%s (%s) %s; explained by the recorded diff_parser finding" % (k[0], k[1], v, what))
         mb = "/multibyte-before-tag" if b.layout == "shared-mb" else ""
